@@ -19,4 +19,14 @@ def run(ctx):
     n = 0
     for v in (2, 3):
         n += RO.check_subvectors(ctx, led, v)
+        # score preservation: the sub-vectors spell out Not Defined for omitted metrics and the base
+        # value for Not Defined modified metrics, so the scores must not tell those apart
+        from ..rules_access import check_accessors
+        from ..rules_flow import check_c06, check_nd
+        from ..rules_parse import RelabelLedger
+
+        check_nd(ctx, led, v, rule="C15.preserve.nd", only_sinks=("scores",))
+        check_c06(ctx, RelabelLedger(led, "C15.preserve", keep=("C06.a", "C06.b"), strip="C06."), v)
+        # the sub-vectors are functions of the object: a second call returns the same text
+        check_accessors(ctx, led, v, rules=("pure",), prefix="C15.pure", only=("temporal_vector", "environmental_vector"))
     led.require_min("C15.emit", n, 16, "sub-vector fields analysed")
